@@ -240,6 +240,44 @@ func jobC11(c *rt.Ctx) {
 			c.Violation(fmt.Sprintf("C11 basepoint-reslice wantErr=%v", wantErr), fmt.Sprintf("X25519(s, Basepoint[:%d]) = %x, %v", hi, out, err), map[string]interface{}{"len": hi})
 		}
 	}
+	// the value neighbourhood of the base point (a fast path selected by comparing the point's VALUE
+	// must compare all of it): every 32-byte string that differs from {9, 0, ..., 0} in one bit, in
+	// byte 0 or in byte 31 (thorough: in any one byte), as a fresh slice
+	c.Require("near-basepoint")
+	for pos := 0; pos < 32; pos++ {
+		for v := 0; v < 256; v++ {
+			pt := le32(big.NewInt(9))
+			if byte(v) == pt[pos] {
+				continue
+			}
+			x := byte(v) ^ pt[pos]
+			if !c.Thorough() && pos != 0 && pos != 31 && x&(x-1) != 0 {
+				continue
+			}
+			if !c.Take() {
+				continue
+			}
+			pt[pos] = byte(v)
+			h := sha512.Sum512([]byte{0xC3, byte(pos), byte(v)})
+			sc := h[:32]
+			want := ref.X25519(sc, pt)
+			out, err := X25519(sc, pt)
+			c.Step(1)
+			c.Class("near-basepoint")
+			c.Distinct(fmt.Sprintf("near %d %d", pos, v), true)
+			zero := bytes.Equal(want, make([]byte, 32))
+			bad := false
+			if zero {
+				bad = err == nil
+			} else {
+				bad = err != nil || !bytes.Equal(out, want)
+			}
+			if bad {
+				c.Violation("C11 near-basepoint value", fmt.Sprintf("X25519(%x, %x): out=%x err=%v; RFC 7748 says %x", sc, pt, out, err, want),
+					map[string]interface{}{"scalar": ref.Hex(sc), "point": ref.Hex(pt), "expected": ref.Hex(want), "observed": ref.Hex(out), "err": fmt.Sprint(err)})
+			}
+		}
+	}
 	// constructed outputs: for every byte position i a result whose ONLY non-zero byte is byte i
 	// (a sparse u in a prime-order subgroup of the curve or of the twist, and P = [s^-1]u): the
 	// low-order rejection must look at every byte of the result
@@ -272,28 +310,50 @@ func jobC11(c *rt.Ctx) {
 			if target == nil {
 				continue
 			}
-			h := sha512.Sum512([]byte{0xC1, byte(pos), byte(variant)})
-			sc := h[:32]
-			cl := append([]byte{}, sc...)
-			cl[0] &= 248
-			cl[31] &= 127
-			cl[31] |= 64
-			sm := new(big.Int).Mod(ref.LE(cl), order)
-			inv := new(big.Int).ModInverse(sm, order)
-			P := ref.ToLE(ref.Ladder(inv, target), 32)
-			want := ref.ToLE(target, 32)
-			if !bytes.Equal(ref.X25519(sc, P), want) {
-				c.Fail("sparse-output construction: model X25519 does not give the target")
+			if !sparseOutputCase(c, []byte{0xC1, byte(pos), byte(variant)}, target, order, fmt.Sprintf("non-zero only in byte %d", pos)) {
 				return
-			}
-			out, err := X25519(sc, P)
-			c.Step(1)
-			if err != nil || !bytes.Equal(out, want) {
-				c.Violation("C11 generic sparse-output", fmt.Sprintf("X25519(%x, %x): out=%x err=%v; RFC 7748 says %x (non-zero only in byte %d)", sc, P, out, err, want, pos),
-					map[string]interface{}{"scalar": ref.Hex(sc), "point": ref.Hex(P), "expected": ref.Hex(want), "observed": ref.Hex(out), "err": fmt.Sprint(err)})
 			}
 		}
 	}
+	// two-byte results: the same mask at byte i and byte j, zero elsewhere (differences that cancel
+	// when a zero test folds words together with xor instead of or)
+	masks := []int64{1}
+	if c.Thorough() {
+		masks = []int64{1, 0x80, 0xff}
+	}
+	for i := 0; i < 32; i++ {
+		for j := i + 1; j < 32; j++ {
+			for _, m := range masks {
+				if j == 31 && m >= 128 {
+					continue
+				}
+				if !c.Take() {
+					continue
+				}
+				u := new(big.Int).Lsh(big.NewInt(m), uint(8*i))
+				u.Add(u, new(big.Int).Lsh(big.NewInt(m), uint(8*j)))
+				var order *big.Int
+				for _, ord := range []*big.Int{ref.L, twistL} {
+					if _, z := ref.LadderXZ(ord, u); z.Sign() == 0 {
+						order = ord
+						break
+					}
+				}
+				c.Distinct(fmt.Sprintf("sparse2 %d %d %d", i, j, m), order != nil)
+				if order == nil {
+					// u lies outside both prime-order subgroups (it has a torsion component): no
+					// clamped scalar reaches it from a point of the same subgroup; skipped
+					c.Class("sparse-output-2/not-in-prime-subgroup")
+					continue
+				}
+				c.Class("sparse-output-2")
+				if !sparseOutputCase(c, []byte{0xC2, byte(i), byte(j), byte(m)}, u, order, fmt.Sprintf("non-zero only in bytes %d and %d", i, j)) {
+					return
+				}
+			}
+		}
+	}
+	c.Require("sparse-output-2")
 	// results are fresh memory: they alias neither an argument nor a later result
 	c.Require("result-fresh")
 	for which := 0; which < 2; which++ {
@@ -481,4 +541,30 @@ func c12Strings(c *rt.Ctx, prop string) {
 				map[string]interface{}{"key": ref.Hex(b), "expected": ref.Hex(want), "observed": ref.Hex(got), "ok": ok, "decodable": dec})
 		}
 	}
+}
+
+// sparseOutputCase: P = [s^-1]target in the subgroup of the given prime order, so that RFC 7748
+// X25519(s, P) = target; the library must return exactly target.
+func sparseOutputCase(c *rt.Ctx, tag []byte, target, order *big.Int, what string) bool {
+	h := sha512.Sum512(tag)
+	sc := h[:32]
+	cl := append([]byte{}, sc...)
+	cl[0] &= 248
+	cl[31] &= 127
+	cl[31] |= 64
+	sm := new(big.Int).Mod(ref.LE(cl), order)
+	inv := new(big.Int).ModInverse(sm, order)
+	P := ref.ToLE(ref.Ladder(inv, target), 32)
+	want := ref.ToLE(target, 32)
+	if !bytes.Equal(ref.X25519(sc, P), want) {
+		c.Fail("sparse-output construction: model X25519 does not give the target")
+		return false
+	}
+	out, err := X25519(sc, P)
+	c.Step(1)
+	if err != nil || !bytes.Equal(out, want) {
+		c.Violation("C11 generic sparse-output", fmt.Sprintf("X25519(%x, %x): out=%x err=%v; RFC 7748 says %x (%s)", sc, P, out, err, want, what),
+			map[string]interface{}{"scalar": ref.Hex(sc), "point": ref.Hex(P), "expected": ref.Hex(want), "observed": ref.Hex(out), "err": fmt.Sprint(err)})
+	}
+	return true
 }
